@@ -42,7 +42,8 @@ RULE = ("explicit-state BFS: start states = every TaxonNamespace(...) constructo
         "every member index, is_case_sensitive None/True/False, first_match_only both) is applied to a fresh rebuild, "
         "up to the depth bound and <= max_members live members; a case = one transition (state, op) or one visited "
         "state (full observation suite: every subset of members, every query label x case rule); the same BFS is run "
-        "a second time as a smaller layer over the labels ''/a/A (empty string as a label, its own depth / member "
+        "again as three smaller layers over the labels ''/a/A (empty string as a label), sharp-s/capital sharp-s/ss and "
+        "final sigma/sigma/capital sigma (lower() != casefold()), with their own depth / member "
         "bounds; a state visited in both layers is counted in each); non-trivial = the "
         "state (pre-state for transitions) has >= 2 members")
 ASSUMPTIONS = [
@@ -105,7 +106,13 @@ ALPHA = {
              "lookup_first": ("a", "A"), "lookup_all": ("a",)},
     "empty": {"labels": ("", "a", "A"), "query": ("", "a", "A", "b"), "list": ("", "a", "A"),
               "lookup_first": ("", "a"), "lookup_all": ("",)},
+    # labels whose str.lower() and str.casefold() differ (the library lower()s both sides)
+    "eszett": {"labels": ("\u00df", "\u1e9e", "ss"), "query": ("\u00df", "\u1e9e", "ss", "SS"), "list": ("\u00df", "\u1e9e", "ss"),
+               "lookup_first": ("\u00df", "\u1e9e"), "lookup_all": ("\u00df",)},
+    "sigma": {"labels": ("\u03c2", "\u03c3", "\u03a3"), "query": ("\u03c2", "\u03c3", "\u03a3", "a"), "list": ("\u03c2", "\u03c3", "\u03a3"),
+              "lookup_first": ("\u03c2", "\u03a3"), "lookup_all": ("\u03c3",)},
 }
+LAYER_PREFIX = {"main": "", "empty": "empty_label_layer_", "eszett": "eszett_layer_", "sigma": "sigma_layer_"}
 _LAYER = ["main"]
 
 
@@ -122,16 +129,21 @@ def bounds(tier):
         return {"depth": 4, "max_members": 4, "labels": list(LABELS), "start_label_sequences_up_to": 2,
                 "case_args": list(CS3), "chunk_states": 40,
                 "empty_label_layer": {"depth": 3, "max_members": 3, "labels": list(ALPHA["empty"]["labels"]),
-                                      "start_label_sequences_up_to": 2, "chunk_states": 40}}
+                                      "start_label_sequences_up_to": 2, "chunk_states": 40},
+                "further_small_layers_with_the_same_bounds": {k: list(ALPHA[k]["labels"]) for k in ("eszett", "sigma")}}
     return {"depth": 5, "max_members": 4, "labels": list(LABELS), "start_label_sequences_up_to": 3,
             "case_args": list(CS3), "chunk_states": 60,
             "empty_label_layer": {"depth": 4, "max_members": 4, "labels": list(ALPHA["empty"]["labels"]),
-                                  "start_label_sequences_up_to": 2, "chunk_states": 60}}
+                                  "start_label_sequences_up_to": 2, "chunk_states": 60},
+            "further_small_layers_with_the_same_bounds": {k: list(ALPHA[k]["labels"]) for k in ("eszett", "sigma")}}
 
 
 def layer_bounds(tier, layer):
+    """the small layers all use the bounds recorded as 'empty_label_layer', each with its own labels"""
     b = bounds(tier)
-    return b if layer == "main" else b["empty_label_layer"]
+    if layer == "main":
+        return b
+    return dict(b["empty_label_layer"], labels=list(ALPHA[layer]["labels"]))
 
 
 # ---------------------------------------------------------------------------
@@ -1343,7 +1355,7 @@ def _expand_state(state, b, expand, ctx, out, seen_local, pidx):
     if not state[1]:
         ctx.count("states_immutable")
     if _LAYER[0] != "main":
-        ctx.count("empty_label_layer_states")
+        ctx.count(LAYER_PREFIX[_LAYER[0]] + "states")
     if any(m[0] == "" for m in state[3]):
         ctx.count("states_with_empty_label")
     # fields of TaxonNamespace / Taxon the harness does not know by name (carried generically)
@@ -1412,9 +1424,9 @@ def run_level(chunk, ctx):
 
 def explore(tier, runner):
     ctx = runner.ctx
-    for layer in ("main", "empty"):
+    for layer in ("main", "empty", "eszett", "sigma"):
         set_layer(layer)
-        _explore_layer(tier, runner, layer, "" if layer == "main" else "empty_label_layer_")
+        _explore_layer(tier, runner, layer, LAYER_PREFIX[layer])
     set_layer("main")
 
 
